@@ -791,7 +791,16 @@ func (in *instr) callRewrite(c *ast.CallExpr) ast.Expr {
 	case "(*sync.RWMutex).RUnlock":
 		in.count("R2.lock")
 		return simcall("RUnlock", in.addrOfRecv(s), site)
-	case "(*sync.Mutex).TryLock", "(*sync.RWMutex).TryLock", "(*sync.RWMutex).TryRLock", "(*sync.RWMutex).RLocker":
+	case "(*sync.Mutex).TryLock":
+		in.count("R2.lock")
+		return simcall("TryLock", in.addrOfRecv(s), site)
+	case "(*sync.RWMutex).TryLock":
+		in.count("R2.lock")
+		return simcall("RWTryLock", in.addrOfRecv(s), site)
+	case "(*sync.RWMutex).TryRLock":
+		in.count("R2.lock")
+		return simcall("TryRLock", in.addrOfRecv(s), site)
+	case "(*sync.RWMutex).RLocker":
 		in.fail(c.Pos(), "%s is not supported", name)
 	case "(*sync.WaitGroup).Add":
 		in.count("R5.wg")
